@@ -779,7 +779,7 @@ def plan_jobs(tier, rnd):
         # nine digits is moved through every magnitude of MCScaleJ
         for i in range(2):
             ks = {1203} if i == 0 else set()
-            while len(ks) < 4:
+            while len(ks) < 3:
                 k = rnd.randrange(1, 10 ** rnd.randrange(1, 10)) * rnd.choice((1, 1, -1))
                 if k % 10:
                     ks.add(k)
